@@ -10,15 +10,79 @@ open TaRs TaRs.Rs
 
 variable {F : Type} [Scalar F]
 
+/-- running mean after one `next` (Welford update while warming up, sliding update afterwards);
+    `v` is the value the new input evicts from the ring -/
+def nextM (s : StandardDeviation F) (x v : F) : F :=
+  if s.count < s.period then Scalar.add s.m (Scalar.div (Scalar.sub x s.m) (Scalar.ofNat (s.count + 1)))
+  else Scalar.add s.m (Scalar.div (Scalar.sub x v) (Scalar.ofNat s.period))
+
+/-- the `m2` accumulator after one `next`, BEFORE the clamp -/
+def nextM2Raw (s : StandardDeviation F) (x v : F) : F :=
+  if s.count < s.period then
+    Scalar.add s.m2 (Scalar.mul (Scalar.sub x s.m) (Scalar.sub x (nextM s x v)))
+  else
+    Scalar.add s.m2 (Scalar.mul (Scalar.sub x v)
+      (Scalar.sub (Scalar.add (Scalar.sub x (nextM s x v)) v) s.m))
+
+/-- the `m2` accumulator after one `next` (clamped at zero) -/
+def nextM2 (s : StandardDeviation F) (x v : F) : F :=
+  if Scalar.lt (nextM2Raw s x v) (Scalar.lit 0 0) then Scalar.lit 0 0 else nextM2Raw s x v
+
+/-- Normal form of one `next` on a well-formed state.  This is the ONLY fact about `next` proved
+    by executing the generated body; it does so with `rs_exec`, which does not depend on how the
+    wrap-around and warm-up tests are spelled.  Everything else is derived from it. -/
+theorem next_eq (s : StandardDeviation F) (x v : F) (h : WF s) (hv : s.deque[s.index]? = some v) :
+    s.next x = some (
+      { period := s.period,
+        index := if s.index + 1 < s.period then s.index + 1 else 0,
+        count := if s.count < s.period then s.count + 1 else s.count,
+        m := nextM s x v,
+        m2 := nextM2 s x v,
+        deque := s.deque.setIfInBounds s.index x },
+      Scalar.sqrt (Scalar.div (nextM2 s x v)
+        (Scalar.ofNat (if s.count < s.period then s.count + 1 else s.count)))) := by
+  obtain ⟨hp, hs, hsz, hi, hc⟩ := h
+  have hm : isizeMax < usizeMax := by decide
+  have hix : s.index < s.deque.size := by omega
+  rw [Array.getElem?_eq_getElem hix] at hv
+  have hv := Option.some.inj hv
+  unfold next nextM2 nextM2Raw nextM
+  rs_exec
+  all_goals (first | omega | contradiction | (subst hv; rfl) | (subst hv; simp_all))
+
 /-- `next` never panics on a well-formed state, keeps it well-formed and keeps the period -/
 theorem next_total (s : StandardDeviation F) (x : F) (h : WF s) :
     ∃ r, s.next x = some r ∧ WF r.1 ∧ r.1.period = s.period := by
+  have hix : s.index < s.deque.size := by have := h.size; have := h.idx; omega
+  refine ⟨_, next_eq s x _ h (Array.getElem?_eq_getElem hix), ?_, rfl⟩
   obtain ⟨hp, hs, hsz, hi, hc⟩ := h
-  have hm : isizeMax < usizeMax := by decide
-  unfold next
-  by_cases c1 : s.index + 1 < s.period <;> by_cases c2 : s.count < s.period <;>
-    simp (disch := omega) [index_eq, setIndex_eq, uadd_eq, c1, c2] <;>
-    split <;> refine ⟨⟨?_, ?_, ?_, ?_, ?_⟩, ?_⟩ <;> simp_all <;> omega
+  constructor <;> simp only [Array.size_setIfInBounds] <;> (try split) <;> omega
+
+/-! Two facts that need NO well-formedness (any state, any scalar): whatever `next` returns went
+    through the clamp.  They peel the `Option` binds off one by one, however many there are, and
+    never look at the tests. -/
+
+/-- the stored accumulator is never `< 0` (given only that `0 < 0` is false) -/
+theorem next_m2_not_negative (hirr : Scalar.lt (Scalar.lit 0 0 : F) (Scalar.lit 0 0) = false)
+    (s : StandardDeviation F) (x : F) (r : StandardDeviation F × F) (h : s.next x = some r) :
+    Scalar.lt r.1.m2 (Scalar.lit 0 0 : F) = false := by
+  unfold next at h
+  simp only [Option.bind_eq_bind, Option.bind_eq_some_iff, Option.pure_def, Option.some.injEq] at h
+  repeat (obtain ⟨_, -, h⟩ := h)
+  subst_vars
+  dsimp only
+  split
+  · exact hirr
+  · exact Bool.eq_false_iff.mpr ‹¬ _›
+
+/-- the value returned is computed from the stored (clamped) accumulator and the stored count -/
+theorem next_out_eq (s : StandardDeviation F) (x : F) (r : StandardDeviation F × F) (h : s.next x = some r) :
+    r.2 = Scalar.sqrt (Scalar.div r.1.m2 (Scalar.ofNat r.1.count : F)) := by
+  unfold next at h
+  simp only [Option.bind_eq_bind, Option.bind_eq_some_iff, Option.pure_def, Option.some.injEq] at h
+  repeat (obtain ⟨_, -, h⟩ := h)
+  subst_vars
+  rfl
 
 theorem nextBar_eq (s : StandardDeviation F) (b : Bar F) : s.nextBar b = s.next b.close := by
   unfold nextBar
